@@ -208,3 +208,5 @@ def run(ck):
     # a simulation restored from JSON is "built from equal inputs": station order (mapping insertion order) survives the round trip
     from .c09 import rule_json_order
     ck.attempt(rule_json_order, rid="C10.R7")
+    from .c09 import rule_station_order_roundtrip
+    ck.attempt(rule_station_order_roundtrip, rid="C10.R7")
